@@ -187,6 +187,36 @@ pub fn check_pair(a: &M, b: &M, describe: &dyn Fn() -> String) {
             count!("solved_under_a_binder");
         }
     }
+    // (2b) well-formedness is preserved: every unresolved cell still stands for a term living at one
+    // definite depth (all its occurrences, including those inside recorded solutions, agree on
+    // depth - shift), and that depth is not negative
+    {
+        let mut after = vec![];
+        hole_occurrences(&sa, 0, &mut after);
+        hole_occurrences(&sb, 0, &mut after);
+        let mut homes: HashMap<usize, isize> = HashMap::new();
+        for (c, depth, shift) in after {
+            if c == usize::MAX {
+                continue;
+            }
+            let home = depth as isize - shift as isize;
+            if home < 0 {
+                violation("hole-lowered-below-its-scope", &describe(), "every unresolved hole keeps depth - shift >= 0", &format!("hole ?{c} at depth {depth} with shift {shift} in {} / {}", sa.show(), sb.show()));
+                return;
+            }
+            if let Some(h) = homes.insert(c, home)
+                && h != home
+            {
+                violation(
+                    "hole-scope-changed",
+                    &describe(),
+                    &format!("all occurrences of the unresolved hole ?{c} agree on the depth its solution lives at"),
+                    &format!("homes {h} and {home} in {}  /  {}", sa.show(), sb.show()),
+                );
+                return;
+            }
+        }
+    }
     // (1) with the solutions filled in, the two terms are definitionally equal
     match typing::convertible_closed(&sa, &sb, sem::TYPING_FUEL) {
         Conv::Equal => {
@@ -236,6 +266,22 @@ fn punch_sweep(tier: Tier) -> Sweep {
                     let d = || format!("unify(pattern, instance) with instance {text} and pattern {}", pat.show());
                     check_pair(&pat, inst, &d);
                     check_pair(inst, &pat, &d);
+                }
+            }
+            // holes on both sides: cell A in one copy, cell B in the other (so a solution may itself
+            // contain an unresolved hole that sits under binders of the solution)
+            let n2 = pos.len().min(8);
+            for p in 0..n2 {
+                for q in 0..n2 {
+                    if p == q {
+                        continue;
+                    }
+                    for (s1, s2) in [(0, 0), (pos[p], pos[q]), (pos[p], 0), (0, pos[q]), (pos[p].min(1), pos[q].min(1))] {
+                        let left = replace_at(inst, p, &M::Hole(0, s1.min(pos[p])), &mut 0);
+                        let right = replace_at(inst, q, &M::Hole(1, s2.min(pos[q])), &mut 0);
+                        let d = || format!("unify({}, {}) — two holed copies of {text}", left.show(), right.show());
+                        check_pair(&left, &right, &d);
+                    }
                 }
             }
             // two holes: distinct cells, and the same cell twice (shift 0..depth each; capped)
@@ -355,7 +401,7 @@ impl Prop for C12 {
     fn evidence(&self, tier: Tier) -> EvidenceSpec {
         EvidenceSpec {
             level: "exploration",
-            rule: "instances = every closed type-directed term up to the size bound; patterns = the instance with a hole punched at every position with every shift 0..binder depth (both argument orders), and with two holes (distinct cells and the same cell twice) at every pair of the first 9 positions; every ordered pair of the N smallest terms, hole-free and with a hole punched at each of the first 6 positions of either (shift 0 and shift = depth: scope-escape configurations), and the same cell on both sides (occurs-check configurations); the same under contexts with parameters and definitions (see C18). Whenever the real unify returns true: following the recorded solutions must terminate, every solution's free variables must lie below (depth - shift) of every occurrence of its hole, the two terms with solutions filled in must be convertible in the reference, and the definitions context must be as before. `false` is never a violation on a holed pair. evaluations = unification problems; non-trivial = successful unifications confirmed consistent".to_owned(),
+            rule: "instances = every closed type-directed term up to the size bound; patterns = the instance with a hole punched at every position with every shift 0..binder depth (both argument orders), and with two holes (distinct cells and the same cell twice) at every pair of the first 9 positions; two holed copies of the instance against each other (a different cell on each side, every ordered pair of the first 8 positions, five shift combinations); every ordered pair of the N smallest terms, hole-free and with a hole punched at each of the first 6 positions of either (shift 0 and shift = depth: scope-escape configurations), and the same cell on both sides (occurs-check configurations); the same under contexts with parameters and definitions (see C18). Whenever the real unify returns true: following the recorded solutions must terminate, every solution's free variables must lie below (depth - shift) of every occurrence of its hole, every unresolved hole (also inside a recorded solution) must keep one definite, non-negative home depth, the two terms with solutions filled in must be convertible in the reference, and the definitions context must be as before. `false` is never a violation on a holed pair. evaluations = unification problems; non-trivial = successful unifications confirmed consistent".to_owned(),
             assumptions: vec![
                 "reference conversion (NbE with fuel); Unknown is skipped".to_owned(),
                 "inconsistent successes during which hook H2 counted a hole copy are instances of the known finding F-HOLE-COPY".to_owned(),
